@@ -47,8 +47,8 @@ m = {
  "version": 1,
  "setup_cmd": "./check --build",
  "hooks": {
-   "guard": "cargo feature `verif-hooks` (default off) on the /repo crates that carry hooks",
-   "enable": "the harness workspace /verif/harness depends on the /repo crates by path with features = [\"serde\", \"verif-hooks\"] where declared; ./check rebuilds them from /repo's working tree before every run",
+   "guard": "none needed: no hook or instrumentation was added to /repo (reserved name: cargo feature `verif-hooks`); the checks use the public API and linfa's own `serde` feature only",
+   "enable": "the harness workspace /verif/harness depends on the /repo crates by path with features = [\"serde\"]; ./check rebuilds them from /repo's working tree before every run",
    "baseline_off_cmd": "cd /repo && cargo test --workspace --no-fail-fast --offline",
    "source_commits": hook_commits,
    "add_only": True,
